@@ -475,9 +475,13 @@ impl<'b> Machine<'b> {
                         msgs.push(("C13", format!("slot {i}: the slice returned by into_bump_slice now reads {:?} but held {:?} when it was returned", a, b)));
                     }
                 }
-                Slot::LeakedB { s, t } => {
+                Slot::LeakedB { s, t, from_string } => {
                     if s != t {
-                        msgs.push(("C13", format!("slot {i}: the byte slice returned by into_bump_slice now reads {:?} but held {:?} when it was returned", s, t)));
+                        if *from_string {
+                            msgs.push(("C14", format!("slot {i}: the text returned by into_bump_str now reads {:02x?} but was {:?} when it was returned", s, String::from_utf8_lossy(t))));
+                        } else {
+                            msgs.push(("C13", format!("slot {i}: the byte slice returned by into_bump_slice now reads {:?} but held {:?} when it was returned", s, t)));
+                        }
                     }
                 }
                 Slot::Canary { ptr, len, id } => {
